@@ -209,9 +209,9 @@ Entry(t, vec, var, proc) == [t |-> t, vec |-> vec, var |-> var, proc |-> proc, v
 EnumEntry(var, proc, vals) == [t |-> "enum", vec |-> 0, var |-> var, proc |-> proc, vals |-> vals, own |-> FALSE,
                                svals |-> [i \in 1..Len(vals) |-> Standardise(vals[i])]]      \* values are compared after standardisation
 \* (an entry whose variable is "junk" gets a variable of its own, named like the keyword)
-KM(pairs) == [k \in {Standardise(pairs[i][1]) : i \in 1..Len(pairs)} |->
-                 LET e == pairs[CHOOSE i \in 1..Len(pairs) : Standardise(pairs[i][1]) = k /\ \A j \in (i + 1)..Len(pairs) : Standardise(pairs[j][1]) # k][2] IN
-                 IF e.var = "junk" THEN [e EXCEPT !.var = k, !.own = TRUE] ELSE e]
+KM(pairs) == FoldLeft(LAMBDA f, pr : LET k == Standardise(pr[1]) IN
+                                     [x \in DOMAIN f \cup {k} |-> IF x = k THEN (IF pr[2].var = "junk" THEN [pr[2] EXCEPT !.var = k, !.own = TRUE] ELSE pr[2]) ELSE f[x]],
+                      [x \in {} |-> 0], pairs)        \* a keyword registered twice: the later entry replaces the earlier one
 \* initial variables: vars plus one "unset" variable for every key of km that has a variable of its own
 \* (such a variable holds NoValue until it is set, then Val(value))
 WithOwnVars(km, vars) == [n \in DOMAIN vars \cup {km[k].var : k \in {kk \in DOMAIN km : km[kk].own}} |-> IF n \in DOMAIN vars THEN vars[n] ELSE NoValue]
